@@ -156,26 +156,49 @@ func (t *Timer) Reset(d Duration) bool {
 // After waits for the duration to elapse and then sends the time.
 func After(d Duration) <-chan Time { return NewTimer(d).C }
 
-// Ticker replaces time.Ticker (not simulated).
+// Ticker replaces time.Ticker.
 type Ticker struct {
 	C    <-chan Time
 	real *time.Ticker
+	id   int
+	sim  bool
 }
 
 // NewTicker returns a new Ticker.
 func NewTicker(d Duration) *Ticker {
+	if d <= 0 {
+		panic("non-positive interval for NewTicker")
+	}
 	if simrt.Active() && !simrt.Aborting() {
-		simrt.Unsupported("time.NewTicker")
+		ch := make(chan Time, 1)
+		return &Ticker{C: ch, id: simrt.TickerNew(ch, d), sim: true}
 	}
 	rt := time.NewTicker(d)
 	return &Ticker{C: rt.C, real: rt}
 }
 
 // Stop turns off the ticker.
-func (t *Ticker) Stop() { t.real.Stop() }
+func (t *Ticker) Stop() {
+	if t.sim {
+		simrt.Yield()
+		simrt.TimerStop(t.id)
+		return
+	}
+	t.real.Stop()
+}
 
 // Reset changes the ticker's period.
-func (t *Ticker) Reset(d Duration) { t.real.Reset(d) }
+func (t *Ticker) Reset(d Duration) {
+	if d <= 0 {
+		panic("non-positive interval for Ticker.Reset")
+	}
+	if t.sim {
+		simrt.Yield()
+		simrt.TimerReset(t.id, d)
+		return
+	}
+	t.real.Reset(d)
+}
 
 // Tick is time.Tick.
 func Tick(d Duration) <-chan Time {
